@@ -194,11 +194,38 @@ Definition names_ok (t : template16) (e : elements) : bool :=
 Definition hooks_free (e : elements) : bool :=
   forallb (fun g => forallb (fun s => negb (String.eqb g ("On" ++ (s ++ "Entry"))) && negb (String.eqb g ("On" ++ (s ++ "Exit")))) (el_states e)) (el_guards e).
 
+(* ---------------------------------------------------------------- the names hypothesis of the whole files TEMPLATEStateMachine.py / .h *)
+(* a string without '{', backslash and CR: what a name, an oracle string and every literal piece of the template must be for the output chunks of the
+   transition blocks / signature blocks / initial-state lines / transition-table line to be plain chunks (Proofs/Dyn07.v: dyn_plain_of_names) *)
+Definition okc (c : ascii) : bool := negb (Ascii.eqb c LBR) && negb (Ascii.eqb c BSL) && negb (Ascii.eqb c CR).
+Fixpoint clean (s : string) : bool := match s with EmptyString => true | String c r => okc c && clean r end.
+Definition seg_clean (g : seg) : bool :=
+  match g with Lit s => clean s | Tag n None => clean n | Tag n (Some d) => clean n && clean d end.
+Definition uline_clean (l : uline) : bool := forallb seg_clean l.
+Definition eitem_clean (x : eitem) : bool := match x with ELine l => uline_clean l | EGuard _ _ body => forallb uline_clean body end.
+Definition titem_clean (x : titem) : bool := match x with TLine l => uline_clean l | TEvent _ _ body => forallb eitem_clean body end.
+Definition dyn_item_clean (it : item16) : bool :=
+  match it with
+  | TransBlock _ _ body => forallb titem_clean body
+  | EvBlock _ _ body => forallb uline_clean body
+  | InitLine l => uline_clean l
+  | TableLine pre _ => clean pre
+  | _ => true
+  end.
+Definition dyn_ok07 (t : template16) : bool := forallb dyn_item_clean t.
+
+Definition tb_clean (tb : list (string * string)) : bool := forallb (fun kv => clean (snd kv)) tb.
+Definition dyn_names_ok (e : elements) : bool :=
+  forallb clean (el_states e) && forallb clean (el_events e) && clean (el_first e)
+  && forallb (fun se => clean (fst se) && forallb (fun et => clean (fst et) && forallb tb_clean (snd et)) (snd se)) (el_tps e)
+  && forallb (forallb clean) (el_rows e)
+  && forallb (fun x => clean (fst (snd x)) && clean (snd (snd x))) (el_evsigs e).
+
 (* the names hypothesis of the whole files TEMPLATEStateMachine.py / TEMPLATEStateMachine.h (their USER tags are all fixed text): every name is a
-   non-empty alphanumeric word, and the output lines of the transition blocks / signature blocks / initial-state lines / transition-table line
-   under the element record (with its signature oracle) are plain lines *)
+   non-empty alphanumeric word; the initial state, every name and value of the per-state transition lists, every cell of the table rows and both
+   signature strings the oracle gives for an event are free of '{', backslash and CR -- syntactic *)
 Definition names_plain (e : elements) : bool := forallb name_ok (all_names e).
-Definition names_ok_x (t : template16) (e : elements) : bool := names_plain e && dyn_lines_plain e t.
+Definition names_ok_x (e : elements) : bool := names_plain e && dyn_names_ok e.
 
 (* a line that is the empty string (no newline: what the first filtering leaves of a line it empties) adds nothing to the written text; the
    file's lines without such entries *)
